@@ -578,6 +578,23 @@ pub fn families(tier: Tier, _variant: &str) -> Vec<Family> {
             }
         }));
     }
+    // every distinct number literal of the corpus documents (canada.json: 111k coordinates)
+    {
+        let mut lits: Vec<String> = vec![];
+        for (_, d) in gen::corpus() {
+            for t in gen::corpus_tokens(&d, false) {
+                if let Ok(s) = String::from_utf8(t) {
+                    lits.push(s);
+                }
+            }
+        }
+        lits.sort();
+        lits.dedup();
+        if q {
+            lits = lits.into_iter().enumerate().filter(|(i, _)| i % 4 == 0).map(|(_, s)| s).collect();
+        }
+        v.push(Family::of_vec("corpus-number-literals", lits, |s, ctx| check_number(ctx, s, false)));
+    }
     // long digit runs at every alignment of the 16-digit fraction reader: the literal inside an array
     // with 0..32 leading spaces is covered by C03; here every split of int/frac digits
     {
